@@ -607,30 +607,47 @@ def run(ch, idx, tier):
             if o not in outputs:
                 outputs.append(o)
         pp = pops[: 1 + ch.choose("interp.n_pops", min(2, len(pops)))]
-        history.append({"op": "PlotData.interpolate", "outputs": outputs, "pops": pp})
+        both = res_b is not None and ch.flip("interp.both_results", 0.6)
+        history.append({"op": "PlotData.interpolate", "outputs": outputs, "pops": pp, "results": "both" if both else "shared"})
         new_t = np.array([float(res.t[0]) + 0.1, float(res.t[2]), float(res.t[-1]) - 0.05])
         try:
-            d = at.PlotData(res, outputs=outputs, pops=pp)
-            base = {(s_.pop, s_.output): (np.array(s_.tvec), np.array(s_.vals)) for s_ in d.series}
-            d.interpolate(new_t)
+            d = at.PlotData([res, res_b] if both else res, outputs=outputs, pops=pp)
+            base = {(s_.result, s_.pop, s_.output): (np.array(s_.tvec), np.array(s_.vals)) for s_ in d.series}
         except Exception:
             bump("query_refused")
             return
+        try:
+            d.interpolate(new_t)
+            shared_exc = None
+        except Exception as e:
+            shared_exc = e
+        if both:
+            bump("probe:interpolate_results_with_different_time_vectors")
+        alone_ok = 0
         for s_ in d.series:
             # the value reported for one series on the new time points is what the same series asked for alone reports
+            # (alone also means: without the other result, whose time vector may differ, in the same object)
             try:
-                alone = at.PlotData(pristine(), outputs=[s_.output], pops=[s_.pop])
+                alone = at.PlotData(pristine("second") if s_.result == "second" else pristine(), outputs=[s_.output], pops=[s_.pop])
                 alone.interpolate(new_t)
+                alone_ok += 1
             except Exception:
                 bump("isolated_query_refused")
+                continue
+            if shared_exc is not None:
                 continue
             compared += 1
             bump("evaluations")
             if not _close(s_.vals, alone.series[0].vals, rtol=1e-12, atol=1e-12):
                 violate("answer_depends_on_other_requests", "PlotData.interpolate", {"series": [s_.pop, s_.output], "shared": np.asarray(s_.vals)[:4].tolist(), "isolated": np.asarray(alone.series[0].vals)[:4].tolist(), "call": history[-1]})
-            tv, bv = base[(s_.pop, s_.output)]
+            tv, bv = base[(s_.result, s_.pop, s_.output)]
             if not _close(s_.vals, np.interp(new_t, tv, bv), rtol=1e-12, atol=1e-12):
                 bump("observed_beyond_property:interpolation_not_linear")  # the interpolation rule itself is not part of C20's statement
+        if shared_exc is not None:
+            if alone_ok == len(d.series) and alone_ok:
+                violate("combined_query_raises_but_every_part_answers", "PlotData.interpolate", {"exception": f"{type(shared_exc).__name__}: {str(shared_exc)[:200]}", "call": history[-1]})
+            else:
+                bump("query_refused")
 
     def probe_reports(r):
         # what a user sees of a result: a fixed set of reports (first compartment, first flow, and with programs the
